@@ -7,6 +7,16 @@ V = Path(__file__).resolve().parent.parent
 TECH = "TLA+ specification model-checked with TLC, bound to the implementation by trace validation (TLC checks recorded implementation traces against the abstract spec) and replay of TLC-generated cases/behaviours"
 
 CLAIMS = {
+    "C01": {
+        "text": "TLC explores every history (bounded: 2 threads, 2 collectors, 4 callsites, 14-24 filter records, 6-7 API calls) of the mechanism model (registrar list with dead entries, per-callsite cached interest incl. unregistered, MAX_LEVEL, thread-local slot, SCOPED_COUNT, global) and checks in every state, for every (thread, callsite), that the macro guard chain would deliver exactly what the current collector's own filter demands. Binding: TLC -simulate behaviours and seeded 150-step random histories (10 collectors, 4 threads, 45 real macro callsites) are executed against the real crates, one OS process each, and every recorded trace is validated by TLC against the abstract spec (who must receive each emission), with all model invariants evaluated at every step.",
+        "note": "Assumes collectors whose filter is a self-consistent record as the property requires. Sequential consistency at API-call granularity (the statement-level races are C04). Trusted: recording collector, worker-thread executor, trace projection.",
+        "ref": "4 (C01)",
+    },
+    "C02": {
+        "text": "Same specification as C01 with scope-heavy constants (3 collectors, nesting 2, 8-10 calls, 2-3 threads): TLC checks in every state that the mechanism's current collector (thread-local slot, SCOPED_COUNT fast path, global) equals the innermost live scope, else the global default, else nobody, that set_global_default succeeds exactly once and that the receiving collector is alive. Binding: one OS process per behaviour (set_global_default at every position), TLC -simulate behaviours plus seeded scope-heavy histories incl. panics unwinding scopes on 1-4 threads; TLC validates each trace against the abstract scope stack.",
+        "note": "API-call granularity; the set_global_default CAS race is modelled in DispatchRace (C04). F1 (stale thread-local cache of the global default) was found with this model and fixed (commit 845c754); reverting the fix is detected.",
+        "ref": "4 (C02)",
+    },
     "C19": {
         "text": "Complete enumeration: TLC visits every case of the finite space (all operand pairs x operators x kinds, all case patterns of every name, digits, noise spellings, conversions, MAX_LEVEL round trips), checks the code's inverted encoding (M) against the rank order (A) on each, writes the table; the harness evaluates every row with the real operators and TLC validates every result against A. exhaustive=true.",
         "note": "Trusted: the harness's rank read-back via Debug text; the TLA+ transcription of usize::from_str. Known findings F11/F12 (undocumented spellings accepted) are reported as KNOWN-FINDING.",
